@@ -7,6 +7,8 @@ Usage: seeded_regress.py [id-prefix ...]   (the scratch worktree is removed at t
 """
 import json, os, subprocess, sys, glob
 VERIF = os.path.dirname(os.path.dirname(os.path.abspath(__file__)))
+sys.path.insert(0, os.path.join(VERIF, "tools"))
+import plan
 WT = "/tmp/seeded-wt"
 def sh(*a, **k): return subprocess.run(a, stdout=subprocess.PIPE, stderr=subprocess.STDOUT, text=True, **k)
 sh("git", "-C", "/repo", "worktree", "remove", "--force", WT)
@@ -26,14 +28,23 @@ try:
         if a.returncode:
             res.append((mid, "PATCH-DOES-NOT-APPLY", a.stdout.strip()[:100])); print(res[-1]); continue
         env = dict(os.environ, VERIF_REPO=WT)
-        c = sh(os.path.join(VERIF, "check"), meta["property"], cwd=VERIF, env=env)
+        # the check of the property the change was written against first; where the recorded detector is
+        # a sibling check (a pure memory-ordering change is C09's, a sort defect C18's), that one next
+        props = [meta["property"]]
+        sib = (meta.get("detected_by") or {}).get("check")
+        if isinstance(sib, str) and sib in plan.PROPERTIES and sib not in props:
+            props.append(sib)
+        for prop in props:
+            c = sh(os.path.join(VERIF, "check"), prop, cwd=VERIF, env=env)
+            if c.returncode != 0:
+                break
         line = next((l.strip() for l in c.stdout.splitlines() if "violation class" in l), "")
-        res.append((mid, {0: "MISSED", 1: "caught", 2: "HARNESS-ERROR"}.get(c.returncode, str(c.returncode)), line[:160]))
+        res.append((mid, {0: "MISSED", 1: f"caught by {prop}", 2: "HARNESS-ERROR"}.get(c.returncode, str(c.returncode)), line[:160]))
         print(res[-1], flush=True)
 finally:
     sh("git", "-C", "/repo", "worktree", "remove", "--force", WT)
     sh("rm", "-rf", os.path.join(VERIF, "build", "alt-*"))
     subprocess.run("rm -rf %s/build/alt-*" % VERIF, shell=True)
-missed = [r for r in res if r[1] != "caught"]
+missed = [r for r in res if not r[1].startswith("caught")]
 print(f"{len(res) - len(missed)}/{len(res)} caught")
 sys.exit(1 if missed else 0)
